@@ -259,6 +259,14 @@ theorem path_function_literals :
     ((literals.lookup "inc_open").map (fun l => l.filter (· != "c0"))) = some ["c46", "c46", "c46"] ∧
     literals.lookup "match_string" = some ["c0", "c0", "c63", "c0", "c42", "c0", "c0", "c0", "c92", "c0"] := by decide
 
+/-- `strip_name` (lib/lpc/otable.c, scanned for this fingerprint): character AND integer literals in source order —
+    `last_c = 0`, `size - 1`, the three '/' tests, `return 0`, `p - dest > 2`, `p[-1] == 'c'`, `p[-2] == '.'`,
+    `p -= 2`, `*p = 0`, `return 1` — what `Model.stripName` / `copyNoDbl` / `stripDotCRev` mirror (`rest.length > 0`
+    there is `p - dest > 2` after two characters were taken off). -/
+theorem strip_name_literals :
+    literals.lookup "strip_name" =
+      some ["i0", "i1", "c47", "c47", "c47", "i0", "i2", "i1", "c99", "i2", "c46", "i2", "i0", "i1"] := by decide
+
 /-- which libc function each function of the efun layer / loader calls, as a set (regenerated site table):
     the names `Sys.efunEvents`, `getDirFs`, `renameEfun` / `moveEvents`, `cpEfun`, `saveEfun`, `edIo`, `loadEvents`,
     `includeOpens` print for their events (`open` vs `fopen`, `unlink`, `symlink` …).  binaries.c is left out (C17's
